@@ -87,7 +87,7 @@ Section P7.
     assert (E : bnch (pchmap V f (fun d => d) (fun _ => false) (rebuild_bin_default V) ch) = chmap V f (bnch ch)).
     { unfold bnch, pchmap, chmap. rewrite !map_map. apply map_ext_in. intros [nm c] Hin. simpl. f_equal.
       rewrite Forall_forall in IH. exact (IH _ Hin). }
-    destruct k as [cls ctor| |idx|o|cls ctor];
+    destruct k as [cls ctor| |idx|o|uo|cls ctor];
       try (cbn [rebuild_bin_default rebuild_same]; rewrite !bn_node, smap_bn1, E; reflexivity).
     destruct ch as [|[ln l] [|[rn r] [|x t]]].
     - reflexivity.
@@ -123,7 +123,7 @@ Section P7.
       assert (E : bnch (pchmap V f (dict_filter V falsy cf) (as_instance V cf) (dict_post V cf) ch) = chmap V f (bnch ch)).
       { unfold bnch, pchmap, chmap. rewrite !map_map. apply map_ext_in. intros [nm c] Hin. simpl. f_equal.
         rewrite Forall_forall in IH. rewrite forallb_forall in Qc. exact (IH _ Hin (Qc _ Hin)). }
-      destruct k as [cls ctor| |idx|o|cls ctor].
+      destruct k as [cls ctor| |idx|o|uo|cls ctor].
       + rewrite dict_post_same by exact Qn. rewrite !bn_node, smap_bn1, E. reflexivity.
       + rewrite dict_post_same by reflexivity. rewrite !bn_node, smap_bn1, E. reflexivity.
       + rewrite dict_post_same by reflexivity. rewrite !bn_node, smap_bn1, E. reflexivity.
@@ -144,6 +144,7 @@ Section P7.
                            = SNode (KBin o) (pchmap V f (dict_filter V falsy cf) (as_instance V cf) (dict_post V cf) ((ln, l) :: (rn, r) :: x :: t)) a)
             by (intro a; reflexivity).
           rewrite R, !bn_node, smap_bn1, E. reflexivity.
+      + rewrite dict_post_same by reflexivity. rewrite !bn_node, smap_bn1, E. reflexivity.
       + rewrite dict_post_same by reflexivity. rewrite !bn_node, smap_bn1, E. reflexivity.
   Qed.
 
